@@ -171,8 +171,12 @@ ilu_scopy_to_ucol(
 		d_max = 1.0 / d_max; d_min = 1.0 / d_min;
 		tol = 1.0 / (d_max + (d_min - d_max) * quota / m);
 	    } else {
-		scopy_(&m, &ucol[xusub[jcol]], &i_1, work, &i_1);
-		tol = sqselect(m, work, quota);
+		float *w = work;
+		/* work[] has room for n entries; an ILU column of U may hold more */
+		if ( m > Glu->n ) w = floatMalloc(m);
+		scopy_(&m, &ucol[xusub[jcol]], &i_1, w, &i_1);
+		tol = sqselect(m, w, quota);
+		if ( w != work ) SUPERLU_FREE(w);
 #if 0
 		A = &ucol[xusub[jcol]];
 		for (i = 0; i < m; i++) work[i] = i;
